@@ -4,7 +4,9 @@ which checks flag it (runs every check on a scratch worktree with the patch appl
 import json, os, re, shutil, subprocess, sys, tempfile
 from concurrent.futures import ThreadPoolExecutor
 
-SRC = "/tmp/mut_out"
+SRC = sys.argv[1] if len(sys.argv) > 1 else "/tmp/mut_out"
+PREFIX = sys.argv[2] if len(sys.argv) > 2 else ""   # e.g. "r2" gives ids Cxx-r2m1
+ONLY = set(sys.argv[3].split(",")) if len(sys.argv) > 3 else None
 DST = "/verif/seeded"
 ENV = dict(os.environ, GOFLAGS="-mod=mod", GOPROXY="off", GOSUMDB="off", GOTOOLCHAIN="local", GOWORK="off",
            LUNARLINT_FIXTURE="/verif/lunarlint/testdata/fixture")
@@ -31,7 +33,7 @@ def detect(patch):
 
 def one(item):
     pid, mname, src = item
-    sid = f"{pid}-{mname}"
+    sid = f"{pid}-{PREFIX}{mname}"
     dst = os.path.join(DST, sid)
     os.makedirs(dst, exist_ok=True)
     if not os.path.exists(os.path.join(dst, "patch.diff")):  # an existing patch may have been re-based onto the current HEAD
@@ -43,6 +45,10 @@ def one(item):
         notes = open(np).read()
         open(os.path.join(dst, "notes.md"), "w").write(notes)
     conf = json.loads(run(f"/verif/tools/confirm_mut.sh {dst}").stdout.strip().splitlines()[-1])
+    race = False
+    if conf["builds"] and not conf["demo_fails_with_patch"]:
+        conf = json.loads(run(f"/verif/tools/confirm_mut.sh {dst} -race").stdout.strip().splitlines()[-1])
+        race = True
     hits = detect(os.path.join(dst, "patch.diff"))
     lines = [l.strip() for l in notes.splitlines() if l.strip()]
     needs = next((l for l in lines if re.search(r"(?i)needs|manifest|only ", l)), "")
@@ -54,21 +60,23 @@ def one(item):
         "needs_to_manifest": needs[:400],
         "confirmed": {k: conf[k] for k in ("applies", "builds", "suite_passes_with_patch", "demo_fails_with_patch", "demo_passes_without_patch")},
         "demo_tests": conf["tests"],
+        "demo_needs_race_detector": race,
         "what_was_run": "tools/confirm_mut.sh (scratch worktree of /repo HEAD: git apply; go build ./...; go test -vet=off -count=1 ./...; demo with and without the patch) and lunarlint -prop all on the patched scratch worktree",
         "detected_by": hits,
         "detected_by_own_property_check": pid in hits,
     }
     json.dump(meta, open(os.path.join(dst, "meta.json"), "w"), indent=1, ensure_ascii=False)
-    return sid, pid in hits, sorted(hits)
+    return sid, pid in hits, sorted(hits), meta["confirmed"]
 
 items = []
 for pid in sorted(os.listdir(SRC)):
     p = os.path.join(SRC, pid)
     if not (os.path.isdir(p) and re.match(r"C\d+$", pid)): continue
+    if ONLY and pid not in ONLY: continue
     for m in sorted(os.listdir(p)):
         if re.match(r"m\d+p?$", m) and os.path.exists(os.path.join(p, m, "patch.diff")) and os.path.exists(os.path.join(p, m, "demo_test.go")):
-            if pid == "C07" and m == "m2": continue   # does not apply any more; m2p is its port
+            if pid == "C07" and m == "m2" and not PREFIX: continue   # does not apply any more; m2p is its port
             items.append((pid, m.replace("p", ""), os.path.join(p, m)))
 with ThreadPoolExecutor(6) as ex:
-    for sid, own, props in ex.map(one, items):
-        print(sid, "own-check" if own else "NOT-BY-OWN", props)
+    for sid, own, props, conf in ex.map(one, items):
+        print(sid, "own-check" if own else "NOT-BY-OWN", props, "" if all(conf.values()) else "UNCONFIRMED %s" % conf)
